@@ -62,6 +62,19 @@ def constructed_cases(ctx):
     # incomplete residues: side-chain defining atoms removed / backbone N of the first residue removed
     cases.append(("no-CG-on-asp", C.join(C.drop(f, lambda ln: ln[17:20] == "ASP" and ln[12:16].strip() == "CG") + [C.TER]), []))
     cases.append(("no-first-N", C.join(f[1:] + [C.TER]), []))
+    # defining atom present, interaction atoms absent: the site must still be reported
+    from . import c12
+    wins = c12.find_windows(ctx)
+    kills = {"ASP": ("OD1", "OD2"), "GLU": ("OE1", "OE2"), "HIS": ("CE1",), "ARG": ("NE", "NH1", "NH2"), "TYR": ("CZ",),
+             "LYS": ("CE",), "CYS": ("CB",)}
+    for resn, names in kills.items():
+        if resn in wins:
+            src, wl, key = wins[resn]
+            new = [ln for ln in wl if not (C.is_atom(ln) and (ln[21], ln[22:26], ln[26], ln[17:20]) == key
+                                           and ln[12:16].strip() in names)]
+            cases.append((f"no-interaction-atoms-{resn}", C.join(new + [C.TER]), []))
+    cases.append(("cterm-without-C", C.join([ln for ln in last if not (ln[12:16].strip() == "C" and oxt and
+                                                                     C.resid(ln) == C.resid(oxt[0]))] + [C.TER]), []))
     # chain selection and titrate-only on a two-chain construct
     two = no_oxt(a) + [C.TER] + no_oxt(b)
     cases.append(("two-chains -c B", C.join(two), ["-c", "B"]))
